@@ -87,6 +87,47 @@ pub mod verif_hooks {
             }
         });
     }
+
+    // ---- H2: life-cycle events of closures (`Machine.closures`) and heap objects (`Machine.heap`) ----
+    // An event is `(kind, key index, key version, refcount after the operation)`.
+    // kind = store | op; store: 0x00 = heap, 0x10 = closures;
+    // op: 0 alloc, 1 retain, 2 release, 3 free (slot removed), 4 use (dereference that must succeed),
+    //     5 probe (lookup that may miss: the raw value is tried as a key), 6 close (upvalues closed),
+    //     7 ref (closures only: raw value of a closure-typed upvalue read by drop_closure / close_upvalues_by_idx).
+    // The refcount is `H2_INVALID` when the key does not name a live object.
+    // kind = 0x20 | n marks the entry of an operation (raw argument split like a key, refcount field 0):
+    //     0 drop_closure(id), 1 release_heap_closure(heap_idx), 2 close_upvalues_by_idx(clsidx),
+    //     3 CloneHeap(raw), 4 CloseHeapClosure(raw), 5 allocate_heap_closure(fn_i),
+    //     8 CloneUserSum(size, type_idx), 9 ReleaseUserSum(size, type_idx),
+    //     10 scope exit (Return/Return0: number of local closures, number of local heap closures).
+    thread_local! {
+        static HEAP_EVENTS: RefCell<Option<Vec<(u8, u64, u64, u64)>>> = const { RefCell::new(None) };
+    }
+    pub const H2_INVALID: u64 = u64::MAX;
+    pub const H2_HEAP: u8 = 0x00;
+    pub const H2_CLOSURE: u8 = 0x10;
+    pub fn heap_start() {
+        HEAP_EVENTS.with(|t| *t.borrow_mut() = Some(vec![]));
+    }
+    pub fn heap_take() -> Vec<(u8, u64, u64, u64)> {
+        HEAP_EVENTS.with(|t| t.borrow_mut().take().unwrap_or_default())
+    }
+    pub fn heap_record(kind: u8, key: slotmap::DefaultKey, rc: u64) {
+        HEAP_EVENTS.with(|t| {
+            if let Some(v) = t.borrow_mut().as_mut() {
+                let ffi = slotmap::Key::data(&key).as_ffi();
+                v.push((kind, ffi & 0xffff_ffff, ffi >> 32, rc));
+            }
+        });
+    }
+    pub const H2_MARK: u8 = 0x20;
+    pub fn heap_record_raw(kind: u8, a: u64, b: u64, rc: u64) {
+        HEAP_EVENTS.with(|t| {
+            if let Some(v) = t.borrow_mut().as_mut() {
+                v.push((kind, a, b, rc));
+            }
+        });
+    }
 }
 
 #[cfg(mimium_verif)]
@@ -399,6 +440,12 @@ where
 impl Machine {
     fn try_get_heap_backed_closure(&self, raw: RawVal) -> Option<(heap::HeapIdx, ClosureIdx)> {
         let heap_idx = Self::get_as::<heap::HeapIdx>(raw);
+        #[cfg(mimium_verif)]
+        verif_hooks::heap_record(
+            verif_hooks::H2_HEAP | 5,
+            heap_idx,
+            self.heap.get(heap_idx).map_or(verif_hooks::H2_INVALID, |o| o.refcount),
+        );
         self.heap.get(heap_idx).and_then(|obj| {
             obj.data
                 .first()
@@ -408,12 +455,26 @@ impl Machine {
 
     fn try_get_direct_closure(&self, raw: RawVal) -> Option<ClosureIdx> {
         let clsidx = Self::get_as::<ClosureIdx>(raw);
+        #[cfg(mimium_verif)]
+        verif_hooks::heap_record(
+            verif_hooks::H2_CLOSURE | 5,
+            clsidx.0,
+            self.closures.get(clsidx.0).map_or(verif_hooks::H2_INVALID, |c| c.refcount),
+        );
         self.closures.contains_key(clsidx.0).then_some(clsidx)
     }
 
     /// Drop a closure by decrementing its reference count.
     /// When refcount reaches 0, recursively drops captured closures and removes the closure.
     pub fn drop_closure(&mut self, id: ClosureIdx) {
+        #[cfg(mimium_verif)]
+        verif_hooks::heap_record(verif_hooks::H2_MARK | 0, id.0, 0);
+        #[cfg(mimium_verif)]
+        verif_hooks::heap_record(
+            verif_hooks::H2_CLOSURE | 2,
+            id.0,
+            self.closures.get(id.0).map_or(verif_hooks::H2_INVALID, |c| c.refcount.wrapping_sub(1)),
+        );
         let cls = self.closures.get_mut(id.0).unwrap();
         cls.refcount -= 1;
         if cls.refcount == 0 {
@@ -431,6 +492,10 @@ impl Machine {
                     }
                 })
                 .collect::<Vec<_>>();
+            #[cfg(mimium_verif)]
+            raw_refs.iter().for_each(|raw| {
+                verif_hooks::heap_record_raw(verif_hooks::H2_CLOSURE | 7, raw & 0xffff_ffff, raw >> 32, 0)
+            });
             let refs = raw_refs
                 .into_iter()
                 .filter_map(|raw| {
@@ -449,6 +514,8 @@ impl Machine {
                 }
             });
             self.closures.remove(id.0);
+            #[cfg(mimium_verif)]
+            verif_hooks::heap_record(verif_hooks::H2_CLOSURE | 3, id.0, 0);
         }
     }
 
@@ -616,6 +683,12 @@ impl Machine {
     /// to obtain the underlying closure index from a `HeapIdx` value that lives
     /// on the VM stack.
     pub fn get_closure_idx_from_heap(&self, heap_idx: heap::HeapIdx) -> ClosureIdx {
+        #[cfg(mimium_verif)]
+        verif_hooks::heap_record(
+            verif_hooks::H2_HEAP | 4,
+            heap_idx,
+            self.heap.get(heap_idx).map_or(verif_hooks::H2_INVALID, |o| o.refcount),
+        );
         let heap_obj = self.heap.get(heap_idx).expect("Invalid HeapIdx");
         Self::get_as::<ClosureIdx>(heap_obj.data[0])
     }
@@ -638,6 +711,15 @@ impl Machine {
         (abs_pos..end, slice)
     }
     pub fn get_closure(&self, idx: ClosureIdx) -> &Closure {
+        #[cfg(mimium_verif)]
+        {
+            verif_hooks::heap_record(
+                verif_hooks::H2_CLOSURE | 4,
+                idx.0,
+                self.closures.get(idx.0).map_or(verif_hooks::H2_INVALID, |c| c.refcount),
+            );
+            assert!(self.closures.contains_key(idx.0), "verif H2: stale closure key dereferenced");
+        }
         debug_assert!(
             self.closures.contains_key(idx.0),
             "Invalid Closure Id referred"
@@ -645,6 +727,15 @@ impl Machine {
         unsafe { self.closures.get_unchecked(idx.0) }
     }
     pub(crate) fn get_closure_mut(&mut self, idx: ClosureIdx) -> &mut Closure {
+        #[cfg(mimium_verif)]
+        {
+            verif_hooks::heap_record(
+                verif_hooks::H2_CLOSURE | 4,
+                idx.0,
+                self.closures.get(idx.0).map_or(verif_hooks::H2_INVALID, |c| c.refcount),
+            );
+            assert!(self.closures.contains_key(idx.0), "verif H2: stale closure key dereferenced");
+        }
         debug_assert!(
             self.closures.contains_key(idx.0),
             "Invalid Closure Id referred"
@@ -730,6 +821,8 @@ impl Machine {
         let idx = self
             .closures
             .insert(Closure::new(&self.prog, self.base_pointer, fn_i, upv_map));
+        #[cfg(mimium_verif)]
+        verif_hooks::heap_record(verif_hooks::H2_CLOSURE | 0, idx, 1);
         ClosureIdx(idx)
     }
 
@@ -740,6 +833,8 @@ impl Machine {
         fn_i: usize,
         upv_map: &mut LocalUpValueMap,
     ) -> heap::HeapIdx {
+        #[cfg(mimium_verif)]
+        verif_hooks::heap_record_raw(verif_hooks::H2_MARK | 5, fn_i as u64, 0, 0);
         // For now, create a traditional closure and store its index in the heap
         // TODO: Eventually migrate to storing closure data directly in heap
         let closure_idx = self.allocate_closure(fn_i, upv_map);
@@ -748,6 +843,8 @@ impl Machine {
         // Layout: [closure_idx_as_raw_val]
         let heap_obj = heap::HeapObject::with_data(vec![Self::to_value(closure_idx)]);
         let heap_idx = self.heap.insert(heap_obj);
+        #[cfg(mimium_verif)]
+        verif_hooks::heap_record(verif_hooks::H2_HEAP | 0, heap_idx, 1);
 
         log::trace!(
             "allocate_heap_closure: fn_i={fn_i}, heap_idx={heap_idx:?}, closure_idx={closure_idx:?}"
@@ -761,6 +858,8 @@ impl Machine {
     /// If the underlying closure has not escaped (`is_closed == false`),
     /// also drops the closure via the normal refcount mechanism.
     fn release_heap_closure(&mut self, heap_idx: heap::HeapIdx) {
+        #[cfg(mimium_verif)]
+        verif_hooks::heap_record(verif_hooks::H2_MARK | 1, heap_idx, 0);
         // Extract the ClosureIdx before we do anything that mutably borrows heap.
         let maybe_closure = self.heap.get(heap_idx).and_then(|obj| {
             (!obj.data.is_empty()).then_some(Self::get_as::<ClosureIdx>(obj.data[0]))
@@ -860,6 +959,11 @@ impl Machine {
         // wrapper closure will not be released automatically.
         cls.is_closed = true;
         let idx = self.closures.insert(cls);
+        #[cfg(mimium_verif)]
+        {
+            verif_hooks::heap_record(verif_hooks::H2_CLOSURE | 0, idx, 1);
+            verif_hooks::heap_record(verif_hooks::H2_CLOSURE | 6, idx, 1);
+        }
         ClosureIdx(idx)
     }
     fn close_upvalues(&mut self, src: Reg) {
@@ -869,6 +973,8 @@ impl Machine {
     /// Close all open upvalues of the given closure, copying stack values into
     /// the upvalue cells so the closure can outlive the current stack frame.
     fn close_upvalues_by_idx(&mut self, clsidx: ClosureIdx) {
+        #[cfg(mimium_verif)]
+        verif_hooks::heap_record(verif_hooks::H2_MARK | 2, clsidx.0, 0);
         let closure_base_ptr = self.get_closure(clsidx).base_ptr as usize;
 
         // Collect closure references to retain. Function-typed upvalues may be
@@ -890,6 +996,10 @@ impl Machine {
                 }
             })
             .collect::<Vec<_>>();
+        #[cfg(mimium_verif)]
+        raw_refs.iter().for_each(|raw| {
+            verif_hooks::heap_record_raw(verif_hooks::H2_CLOSURE | 7, raw & 0xffff_ffff, raw >> 32, 0)
+        });
         let refs = raw_refs
             .into_iter()
             .filter_map(|raw| {
@@ -906,9 +1016,17 @@ impl Machine {
                 heap::heap_retain(&mut self.heap, *heap_idx);
             }
             self.get_closure_mut(*closure_idx).refcount += 1;
+            #[cfg(mimium_verif)]
+            verif_hooks::heap_record(
+                verif_hooks::H2_CLOSURE | 1,
+                closure_idx.0,
+                self.closures.get(closure_idx.0).map_or(verif_hooks::H2_INVALID, |c| c.refcount),
+            );
         });
         let cls = self.get_closure_mut(clsidx);
         cls.is_closed = true;
+        #[cfg(mimium_verif)]
+        verif_hooks::heap_record(verif_hooks::H2_CLOSURE | 6, clsidx.0, cls.refcount);
     }
     fn release_open_closures(&mut self, local_closures: &[ClosureIdx]) {
         for clsidx in local_closures.iter() {
@@ -1043,6 +1161,8 @@ impl Machine {
                 }
                 Instruction::CloseHeapClosure(src) => {
                     let heap_addr = self.get_stack(src as i64);
+                    #[cfg(mimium_verif)]
+                    verif_hooks::heap_record_raw(verif_hooks::H2_MARK | 4, heap_addr & 0xffff_ffff, heap_addr >> 32, 0);
                     if let Some((heap_idx, _)) = self.try_get_heap_backed_closure(heap_addr) {
                         self.close_heap_upvalues(heap_idx);
                     } else if let Some(closure_idx) = self.try_get_direct_closure(heap_addr) {
@@ -1051,16 +1171,22 @@ impl Machine {
                 }
                 Instruction::CloneHeap(src) => {
                     let heap_addr = self.get_stack(src as i64);
+                    #[cfg(mimium_verif)]
+                    verif_hooks::heap_record_raw(verif_hooks::H2_MARK | 3, heap_addr & 0xffff_ffff, heap_addr >> 32, 0);
                     if let Some((heap_idx, closure_idx)) =
                         self.try_get_heap_backed_closure(heap_addr)
                     {
                         heap::heap_retain(&mut self.heap, heap_idx);
                         if let Some(closure) = self.closures.get_mut(closure_idx.0) {
                             closure.refcount += 1;
+                            #[cfg(mimium_verif)]
+                            verif_hooks::heap_record(verif_hooks::H2_CLOSURE | 1, closure_idx.0, closure.refcount);
                         }
                     } else if let Some(closure_idx) = self.try_get_direct_closure(heap_addr) {
                         if let Some(closure) = self.closures.get_mut(closure_idx.0) {
                             closure.refcount += 1;
+                            #[cfg(mimium_verif)]
+                            verif_hooks::heap_record(verif_hooks::H2_CLOSURE | 1, closure_idx.0, closure.refcount);
                         }
                     }
                 }
@@ -1069,12 +1195,20 @@ impl Machine {
                     let (_, src_data) = self.get_stack_range(src as i64, inner_size);
                     let data = src_data.to_vec();
                     let heap_idx = self.heap.insert(heap::HeapObject::with_data(data));
+                    #[cfg(mimium_verif)]
+                    verif_hooks::heap_record(verif_hooks::H2_HEAP | 0, heap_idx, 1);
                     self.set_stack(dst as i64, Self::to_value(heap_idx));
                 }
                 Instruction::BoxLoad(dst, src, inner_size) => {
                     // Load data from heap to stack
                     let heap_addr = self.get_stack(src as i64);
                     let heap_idx = Self::get_as::<heap::HeapIdx>(heap_addr);
+                    #[cfg(mimium_verif)]
+                    verif_hooks::heap_record(
+                        verif_hooks::H2_HEAP | 4,
+                        heap_idx,
+                        self.heap.get(heap_idx).map_or(verif_hooks::H2_INVALID, |o| o.refcount),
+                    );
                     let heap_obj = self
                         .heap
                         .get(heap_idx)
@@ -1097,6 +1231,12 @@ impl Machine {
                     let heap_idx = Self::get_as::<heap::HeapIdx>(heap_addr);
                     let (_, src_data) = self.get_stack_range(src as i64, inner_size);
                     let data = src_data.to_vec();
+                    #[cfg(mimium_verif)]
+                    verif_hooks::heap_record(
+                        verif_hooks::H2_HEAP | 4,
+                        heap_idx,
+                        self.heap.get(heap_idx).map_or(verif_hooks::H2_INVALID, |o| o.refcount),
+                    );
                     let heap_obj = self
                         .heap
                         .get_mut(heap_idx)
@@ -1104,6 +1244,8 @@ impl Machine {
                     heap_obj.data[..inner_size as usize].copy_from_slice(&data);
                 }
                 Instruction::CloneUserSum(value_reg, value_size, type_idx) => {
+                    #[cfg(mimium_verif)]
+                    verif_hooks::heap_record_raw(verif_hooks::H2_MARK | 8, value_size as u64, type_idx as u64, 0);
                     let ty = self
                         .prog
                         .get_type_from_table(type_idx)
@@ -1113,6 +1255,8 @@ impl Machine {
                     Self::clone_usersum_recursive(&value_vec, &ty, &mut self.heap);
                 }
                 Instruction::ReleaseUserSum(value_reg, value_size, type_idx) => {
+                    #[cfg(mimium_verif)]
+                    verif_hooks::heap_record_raw(verif_hooks::H2_MARK | 9, value_size as u64, type_idx as u64, 0);
                     let ty = self
                         .prog
                         .get_type_from_table(type_idx)
@@ -1125,6 +1269,12 @@ impl Machine {
                 Instruction::CallIndirect(func, nargs, nret_req) => {
                     let callable = self.get_stack(func as i64);
                     let heap_idx = Self::get_as::<heap::HeapIdx>(callable);
+                    #[cfg(mimium_verif)]
+                    verif_hooks::heap_record(
+                        verif_hooks::H2_HEAP | 5,
+                        heap_idx,
+                        self.heap.get(heap_idx).map_or(verif_hooks::H2_INVALID, |o| o.refcount),
+                    );
 
                     let maybe_heap_closure = self.heap.get(heap_idx).and_then(|heap_obj| {
                         heap_obj.data.first().and_then(|&closure_raw| {
@@ -1143,6 +1293,12 @@ impl Machine {
                         self.states_stack.pop();
                     } else {
                         let closure_idx = ClosureIdx(DefaultKey::from(KeyData::from_ffi(callable)));
+                        #[cfg(mimium_verif)]
+                        verif_hooks::heap_record(
+                            verif_hooks::H2_CLOSURE | 5,
+                            closure_idx.0,
+                            self.closures.get(closure_idx.0).map_or(verif_hooks::H2_INVALID, |c| c.refcount),
+                        );
                         if self.closures.contains_key(closure_idx.0) {
                             let cls = self.get_closure(closure_idx);
                             let pos_of_f = cls.fn_proto_pos;
@@ -1168,12 +1324,26 @@ impl Machine {
                     }
                 }
                 Instruction::Return0 => {
+                    #[cfg(mimium_verif)]
+                    verif_hooks::heap_record_raw(
+                        verif_hooks::H2_MARK | 10,
+                        local_closures.len() as u64,
+                        local_heap_closures.len() as u64,
+                        0,
+                    );
                     self.stack.truncate((self.base_pointer - 1) as usize);
                     self.release_open_closures(&local_closures);
                     self.release_heap_closures(&local_heap_closures);
                     return 0;
                 }
                 Instruction::Return(iret, nret) => {
+                    #[cfg(mimium_verif)]
+                    verif_hooks::heap_record_raw(
+                        verif_hooks::H2_MARK | 10,
+                        local_closures.len() as u64,
+                        local_heap_closures.len() as u64,
+                        0,
+                    );
                     let _ = self.return_general(iret, nret);
                     self.release_open_closures(&local_closures);
                     self.release_heap_closures(&local_heap_closures);
